@@ -65,7 +65,8 @@ fn gen_fx(rng: &mut Rng, depth: u32) -> String {
 		3 => format!(
 			"comp:{}:{}:{}:{}:{}:{}",
 			o64(rng.pick(&[0.0, -12.0, -24.0, -60.0])),
-			o64(rng.pick(&[1.0, 2.0, 4.0, 100.0])),
+			// ratio: 0 and -0 have no reciprocal (used to turn the whole mix into NaN; now like ratio 1), 0.5 expands
+			o64(rng.pick(&[1.0, 2.0, 4.0, 100.0, 0.0, -0.0, 0.5, 0.0])),
 			rng.pick(&[0u64, 1_000_000, 10_000_000, 300_000_000]),
 			rng.pick(&[0u64, 1_000_000, 100_000_000, 1_000_000_000]),
 			o32(rng.pick(&[0.0f32, 6.0, -6.0])),
@@ -410,13 +411,41 @@ pub fn gen(rng: &mut Rng, n: usize, thorough: bool, stats: &mut Stats) -> Vec<St
 					} else {
 						(-1.0, -1.0)
 					};
-					let reverse = len >= 2 && rng.chance(1, 5);
-					// start position on a frame boundary inside the sound (reverse + start ≥ length underflows in
-					// Transport::new on the CALLER's thread — a recorded C04-domain finding, not an audio-thread fault)
+					// reversed sounds of any length (empty ones too), start positions inside, at and past the end in
+					// either direction (reverse + start ≥ length used to underflow in Transport::new: repaired)
+					let reverse = rng.chance(1, 4);
 					let _ = dur;
-					let startpos = if len == 0 { 0.0 } else { rng.pick(&[0, 0, (len - 1) / 2, len - 1]) as f64 / sr as f64 };
+					let startpos = rng.pick(&[0, 0, len.saturating_sub(1) / 2, len.saturating_sub(1), len, len + 1, 2 * len + 7]) as f64 / sr as f64;
+					// slice (the public field): none, inside the data, reaching past it, starting past it, inverted,
+					// empty (a slice past the data used to index out of bounds on the audio thread, an inverted one
+					// underflowed in num_frames: both repaired — the slice is clamped to the data)
+					let slice = match rng.below(12) {
+						0 | 1 => {
+							let a = rng.below(len + 1);
+							format!("{},{}", a, a + rng.below(len - a + 1))
+						}
+						2 => format!("{},{}", rng.below(len + 1), len + 1 + rng.below(5000)),
+						3 => format!("0,{}", rng.pick(&[len + 1, u32::MAX as u64, u64::MAX])),
+						4 => {
+							let a = len + rng.below(3);
+							format!("{},{}", a, a + rng.below(4))
+						}
+						5 => {
+							let a = 1 + rng.below(len + 2);
+							format!("{},{}", a, rng.below(a))
+						}
+						6 => {
+							let a = rng.below(len + 2);
+							format!("{},{}", a, a)
+						}
+						_ => "-".to_string(),
+					};
+					stats.hit(if slice == "-" { "play_unsliced" } else { "play_sliced" });
+					if reverse && startpos * sr as f64 >= len as f64 {
+						stats.hit("play_reverse_start_ge_len");
+					}
 					format!(
-						"play {} {} {} {} {} {} {} {} {} {} {} {} {}",
+						"play {} {} {} {} {} {} {} {} {} {} {} {} {} {}",
 						rng.range(-1, 5),
 						len,
 						sr,
@@ -429,7 +458,8 @@ pub fn gen(rng: &mut Rng, n: usize, thorough: bool, stats: &mut Stats) -> Vec<St
 						reverse as u8,
 						o64(startpos),
 						if rng.chance(1, 4) { gen_tween(rng, nclocks) } else { "-".into() },
-						if rng.chance(1, 5) { gen_tween(rng, nclocks).split(';').next().unwrap().to_string() } else { "imm".into() }
+						if rng.chance(1, 5) { gen_tween(rng, nclocks).split(';').next().unwrap().to_string() } else { "imm".into() },
+						slice
 					)
 				}
 				19 | 20 => format!(
@@ -700,7 +730,11 @@ fn exec(sc: &mut Option<Scene>, l: &str, out: &mut Out) {
 				sample_rate: sr,
 				frames: noise_frames(len, pu(tok[4])),
 				settings,
-				slice: None,
+				// optional 15th token `<a>,<b>` (older ops files have none): the public `slice` field, any pair
+				slice: tok.get(14).filter(|t| **t != "-").map(|t| {
+					let (a, b) = t.split_once(',').expect("bad slice");
+					(pu(a) as usize, pu(b) as usize)
+				}),
 			};
 			let t = pi(tok[1]);
 			let r = if t >= 0 && !s.tracks.is_empty() {
